@@ -26,6 +26,13 @@ PROPS = {
                 partial=[]),
     "C02": dict(lean=["Mav.Props.C02"], groups=[("C02", sizes(120, 3000))],
                 trusted=["x25 step regenerated from pkg/x25/x25.go (G-expr); reader gate model hand-written (TIE-D)"]),
+    "C03": dict(lean=["Mav.Props.C03"], groups=[("C03", sizes(1, 1))], table_crosscheck=True,
+                spec_domain=lambda op: op.startswith(("defmsg ", "msgenc ")),
+                trusted=["reflect (struct fields/tags) as seen by the harness; cross-checked against the go/ast tables of tools/extract",
+                         "sort.Slice contract (returns a permutation sorted w.r.t. a strict total order)"]),
+    "C04": dict(lean=["Mav.Props.C04"], groups=[("C04", sizes(1, 1))],
+                spec_domain=lambda op: op.startswith(("msgenc ", "msgdec ")),
+                trusted=["Go slice/append aliasing is not modelled in Lean: buffer ownership is decided by the harness (payload handed over as a sub-slice of a poisoned backing array, compared before/after)"]),
     "C05": dict(lean=["Mav.Props.C05"], groups=[("C05", sizes(150, 6000))],
                 trusted=["bufio.Reader / io.ReadFull behaviour folded into the flat stream model (Mav/Model/Reader.lean); validated by TIE-D under many chunkings"],
                 partial=["segmentation independence: by correspondence (every stream read under several chunkings vs the flat model), not by a Lean refinement theorem"]),
